@@ -16,6 +16,7 @@ format but not any :py:mod:`cutplace.fields` or :py:mod:`cutplace.checks`.
 #
 # You should have received a copy of the GNU Lesser General Public License
 # along with this program.  If not, see <http://www.gnu.org/licenses/>.
+import codecs
 import csv
 import datetime
 import io
@@ -181,6 +182,18 @@ def _raise_delimited_data_format_error(delimited_path, reader, error):
 _MAX_DELIMITED_ITEM_LENGTH = 2**31 - 1
 
 
+def _encoding_for_reading(encoding):
+    """
+    Same as ``encoding`` except for UTF-8, where a possible byte order mark at the beginning of the data (as written
+    by "CSV UTF-8" exports of spreadsheet applications) is skipped instead of becoming a part of the first item.
+    """
+    try:
+        is_utf_8 = codecs.lookup(encoding).name == "utf-8"
+    except LookupError:
+        is_utf_8 = False
+    return "utf-8-sig" if is_utf_8 else encoding
+
+
 def _as_delimited_keywords(delimited_data_format):
     assert delimited_data_format is not None
     assert delimited_data_format.is_valid
@@ -219,7 +232,9 @@ def delimited_rows(delimited_source, data_format):
       a valid delimited file
     """
     if isinstance(delimited_source, str):
-        delimited_stream = io.open(delimited_source, "r", newline="", encoding=data_format.encoding)
+        delimited_stream = io.open(
+            delimited_source, "r", newline="", encoding=_encoding_for_reading(data_format.encoding)
+        )
         has_opened_delimited_stream = True
     else:
         delimited_stream = delimited_source
@@ -502,7 +517,7 @@ def fixed_rows(fixed_source, encoding, field_name_and_lengths, line_delimiter="a
     if isinstance(fixed_source, str):
         # Use newline="" to prevent universal newlines from translating "\r" and "\r\n" to "\n",
         # which would break data using these as explicitly declared line delimiter.
-        fixed_file = io.open(fixed_source, "r", encoding=encoding, newline="")
+        fixed_file = io.open(fixed_source, "r", encoding=_encoding_for_reading(encoding), newline="")
         is_opened = True
     else:
         fixed_file = fixed_source
